@@ -215,6 +215,20 @@ func (r *trieRunner) Do(op []string) string {
 		// the caller reads only the first k keys and leaves the rest in the result queue
 		q, err := r.t.Keys()
 		return drainN(q, atoi(op[1])) + " " + errs(err)
+	case "keysrot":
+		// the caller reads the first k keys and enqueues them again: the result queue keeps its length
+		q, err := r.t.Keys()
+		var items []string
+		n0 := q.Size() // at most the keys that were there: a rotated key is not read twice
+		for len(items) < atoi(op[1]) && len(items) < n0 {
+			k, e := q.Dequeue()
+			if e != nil {
+				break
+			}
+			items = append(items, hx(k))
+			q.Enqueue(k)
+		}
+		return plist(items) + " " + errs(err)
 	case "startswithpart":
 		q, err := r.t.StartsWith(unhx(op[2]))
 		return drainN(q, atoi(op[1])) + " " + errs(err)
@@ -600,7 +614,7 @@ func genC09(g *Gen) {
 		}
 		ops = append(ops, "keys", "startswith "+hx("ab"), "startswith "+hx("b"), "keys", "size")
 		// results read only in part, then queried again
-		ops = append(ops, "keyspart 1", "startswith "+hx("a"), "keyspart 2", "keys", "startswithpart 1 "+hx("a"), "startswith "+hx("b"), "keyspart 3", "startswithpart 2 "+hx("a"), "keys")
+		ops = append(ops, "keys", "keysrot 1", "keys", "keysrot 2", "keysrot 2", "keys", "keyspart 1", "startswith "+hx("a"), "keyspart 2", "keys", "startswithpart 1 "+hx("a"), "startswith "+hx("b"), "keyspart 3", "startswithpart 2 "+hx("a"), "keys")
 		for i, k := range stored {
 			ops = append(ops, "put "+hx(k)+" "+itoa(500+i), "size", "get "+hx(k))
 		}
@@ -643,7 +657,7 @@ func genC09(g *Gen) {
 				q := rk()
 				ops = append(ops, "get "+hx(q), "contains "+hx(q), "startswith "+hx(q), "longestprefix "+hx(q))
 			if j%3 == 0 {
-				ops = append(ops, "keyspart "+itoa(r.Intn(4)), "startswithpart "+itoa(r.Intn(3))+" "+hx(q), "keys")
+				ops = append(ops, "keysrot "+itoa(1+r.Intn(3)), "keys", "keyspart "+itoa(r.Intn(4)), "startswithpart "+itoa(r.Intn(3))+" "+hx(q), "keys")
 			}
 			}
 		}
